@@ -43,6 +43,34 @@ pub fn run(out: &mut Out, thorough: bool, seed: u64, _extra: &[String]) {
             let s = match make(scheme, n, &qs, t, true, None) { Some(s) => std::sync::Arc::new(s), None => continue };
             let levels = s.levels();
             let nl = levels.len();
+            // CKKS plain switching with a scale between the next level's modulus and the current one: the value cannot survive the switch, so the
+            // request must be refused — or, if accepted, the result must still decode to the value (an accepted switch keeps the message)
+            if scheme == SchemeType::CKKS && nl >= 2 {
+                let enc = CKKSEncoder::new(s.ctx.clone());
+                for src in 0..nl - 1 {
+                    let bits_next = s.ctx.get_context_data(&levels[src + 1]).unwrap().total_coeff_modulus_bit_count() as i32;
+                    let bits_cur = s.ctx.get_context_data(&levels[src]).unwrap().total_coeff_modulus_bit_count() as i32;
+                    for sb in [bits_next - 1, bits_next, bits_next + 1] {
+                        if sb + 3 >= bits_cur || sb < 2 { continue; }
+                        let p = match std::panic::catch_unwind(std::panic::AssertUnwindSafe(|| enc.encode_f64_single_new(0.75, Some(levels[src]), 2f64.powi(sb)))) { Ok(p) => p, Err(_) => continue };
+                        let mut c = Ciphertext::new(); s.encryptor.encrypt_symmetric(&p, &mut c);
+                        let fits = sb < bits_next;
+                        for form in 0..3 {
+                            let r = std::panic::catch_unwind(std::panic::AssertUnwindSafe(|| match form { 0 => s.evaluator.mod_switch_to_next_new(&c), 1 => { let mut d = Ciphertext::new(); s.evaluator.mod_switch_to_next(&c, &mut d); d } _ => { let mut x = c.clone(); s.evaluator.mod_switch_to_next_inplace(&mut x); x } }));
+                            let lhs = format!("ckks_drop_scale_bound L{} {}->{} scale=2^{} next={}bits form{}", nl, src, src + 1, sb, bits_next, form);
+                            match r {
+                                Err(_) => { if fits { out.raw(&format!("!FAIL {} :: a switch whose scale fits the next level was refused # ckks-drop-bound", lhs)); } else { out.raw(&format!("!OK {} refused # ckks-drop-bound", lhs)); } }
+                                Ok(res) => {
+                                    let dec = std::panic::catch_unwind(std::panic::AssertUnwindSafe(|| enc.decode_new(&s.decryptor.decrypt_new(&res))));
+                                    let good = res.parms_id() == &levels[src + 1] && res.scale().to_bits() == c.scale().to_bits() && dec.map(|d| (d[0].re - 0.75).abs() < 1e-2).unwrap_or(false);
+                                    if good { out.raw(&format!("!OK {} accepted, value kept # ckks-drop-bound", lhs)); }
+                                    else { out.raw(&format!("!FAIL {} :: the switch was accepted but the result no longer decodes to the value (scale does not fit the target level) # ckks-drop-bound", lhs)); }
+                                }
+                            }
+                        }
+                    }
+                }
+            }
             // source ciphertexts of size 2..4 at the first level (products without relinearisation), moved to each source level
             for size in 2..=(if rep % 2 == 0 { 3 } else { 4 }) {
                 let (ct0, msg): (Ciphertext, Vec<u64>) = if scheme == SchemeType::CKKS {
